@@ -137,3 +137,30 @@ meta("C13",
      "non-empty arm; token codec uses the same engine and byte order on both sides; no panicking call in the pipelines.",
      ["'every resource exactly once' for concrete N and page sizes (arithmetic over runtime lengths)"],
      ["Iterator::skip/take semantics; slice::sort_unstable by Ord"])
+
+meta("C10",
+     "Atomic-map structure: existence test and insert in one body on the same map, called under a single live write guard; the error->status "
+     "table extracted from every map_err closure (AlreadyExists -> ALREADY_EXISTS, DoesNotExist -> NOT_FOUND, same-project -> "
+     "INVALID_ARGUMENT); project check and topic lookup dominate the insert; every actor reply is dominated by the completed handler call and "
+     "delete handlers remove the manager entry on every successful path; read-back provenance of the Subscription resource; the >=10 s clamp.",
+     ["linearizability of concurrent histories (follows from the locks only together with scheduling arguments)"],
+     ["parking_lot RwLock semantics"])
+
+meta("C11",
+     "Deletion ordering and ownership: wherever the topic-side removal of a subscription is awaited, it precedes (on every path on which the "
+     "topic is alive) the manager-map removal / the actor's delete request / the deletion signal; the delete handler clears backlog and "
+     "tracker; topic delete clears only its own set and sends nothing to subscriptions; CreateTopic touches neither the subscription manager "
+     "nor any actor and a new topic actor starts with an empty set; only the topic manager's map holds Arc<Topic>, subscriptions hold "
+     "Weak<Topic>; create pairs insert with attach; attachment only through create with the same topic.",
+     ["set equality of ListTopicSubscriptions and the live subscriptions at a quiescent moment of a given history"],
+     ["Arc/Weak semantics"])
+
+meta("C14",
+     "Push structure: the u16 status switch fed from Response::status treats exactly {102,200,201,202,204} as success; from every outcome arm "
+     "(each success status, any other status, transport error) constant propagation reaches exactly ack or exactly nack with the pushed "
+     "delivery's ack id, never both; HTTP requests only in the dispatch, rounds built from registry entries plus a manager lookup, registry "
+     "written only with the subscription's own push_config and cleared by the delete flow, URL = registered endpoint, POST; rounds race the "
+     "deletion signal and skip missing subscriptions; payload provenance (base64 data, id, attributes, subscription name); dispatch tasks "
+     "are joined.",
+     ["'no answer within the ack deadline counts as failure' and 'posted again on later rounds' (timing; C04's undecided part)"],
+     ["reqwest / serde_json behave as documented"])
